@@ -94,6 +94,16 @@ def _rm(path):
         pass
 
 
+# Argument values next to an object operand: dyadic (v=0/1 as before), NON-dyadic decimals, and amounts of
+# very different magnitude (1e-3 … 1e16): (x + a) - a == x holds exactly only for the dyadic ones, so an
+# operation that moves its operand there and back is visible bit for bit with the others.
+PI = 3.141592653589793
+VECTORS = [(0.5, 1.0, 2.0), (0.1, 0.2, 1.0 / 3.0), (1e-3, PI * 1e-3, 2.7e-3), (1e16 / 3.0, 0.1, 1e8 * PI)]
+SCALARS = [2.0, 0.3, 1e-3 * PI, 1e16 / 3.0]
+ANGLES = [0.25, 0.1, PI / 7.0, 1e-3]
+WIDE_FROM = 2          # variants >= WIDE_FROM use non-dyadic / wide-magnitude arguments
+
+
 def _sec_args(o, v):
     """Section arguments for variant v: 0 nothing fixed, 1 first direction fixed at 0, 2 last
     direction fixed at -1, 3 everything fixed (point case), 4 point case with unwrap_points=False."""
@@ -220,11 +230,17 @@ def _reparam(sp, a, v):
 
 def _translate(sp, a, v):
     o = a[0]
-    return o.translate([1.0, -2.0, 0.5][: (o.dimension if v == 0 else 3)])
+    if v < 2:
+        return o.translate([1.0, -2.0, 0.5][: (o.dimension if v == 0 else 3)])
+    return o.translate(list(VECTORS[v - 1])[: o.dimension])
 
 
 def _rotate(sp, a, v):
-    return a[0].rotate(0.3) if v == 0 else a[0].rotate(0.4, (1, 0, 0))
+    if v == 0:
+        return a[0].rotate(0.3)
+    if v == 1:
+        return a[0].rotate(0.4, (1, 0, 0))
+    return a[0].rotate(ANGLES[v - 1], (0.1, 0.2, 1.0 / 3.0) if v == 3 else (0, 0, 1))
 
 
 def _set_dimension(sp, a, v):
@@ -273,8 +289,12 @@ def _arith(name):
             x = 2.0 if v == 0 else [2.0, 0.5, 4.0]
             if 'div' in name:
                 x = 2.0
+            if v >= WIDE_FROM:
+                x = SCALARS[v - 1]
         else:
             x = [1.0, -2.0, 0.5][: (o.dimension if v == 0 else 3)]
+            if v >= WIDE_FROM:
+                x = list(VECTORS[v - 1])[: o.dimension]
         return getattr(o, name)(x)
     return f
 
@@ -349,17 +369,29 @@ def _factory1(modname, fname, *args, **kw):
     return f
 
 
+def _extrude(modname):
+    def f(sp, a, v):
+        return _mod(sp, modname).extrude(a[0], VECTORS[v])
+    return f
+
+
 def _revolve(modname):
     def f(sp, a, v):
         fn = _mod(sp, modname).revolve
-        return fn(a[0]) if v == 0 else fn(a[0], 1.25, (1, 0, 1))
+        if v == 0:
+            return fn(a[0])
+        if v == 1:
+            return fn(a[0], 1.25, (1, 0, 1))
+        return fn(a[0], ANGLES[v - 1] * 10, (0.1, 0.2, 1.0 / 3.0) if v == 2 else (1e-3, 1e3 * PI, 0.7))
     return f
 
 
 def _thicken(sp, a, v):
     if v == 0:
         return _mod(sp, 'surface_factory').thicken(a[0], 0.25)
-    return _mod(sp, 'surface_factory').thicken(a[0], lambda x, y, t: 0.125 + 0.0625 * t * t)
+    if v == 1:
+        return _mod(sp, 'surface_factory').thicken(a[0], lambda x, y, t: 0.125 + 0.0625 * t * t)
+    return _mod(sp, 'surface_factory').thicken(a[0], 0.1 if v == 2 else 1e3 * PI)
 
 
 def _nary(modname, fname, aslist=False):
@@ -566,7 +598,7 @@ op(SO + 'lower_order', 'fresh', 'O', _lower_order, variants=2)
 op(SO + 'split', 'fresh', 'O', _split, variants=3)
 op(SO + 'make_periodic', 'fresh', 'O', _make_periodic, variants=2)
 for _n in ('__add__', '__radd__', '__sub__', '__mul__', '__rmul__', '__div__', '__truediv__'):
-    op(SO + _n, 'fresh', 'O', _arith(_n), variants=2)
+    op(SO + _n, 'fresh', 'O', _arith(_n), variants=4)
 # in place, documented `:return: self`
 op(SO + 'set_order', 'inplace', 'O', _set_order, variants=2)
 op(SO + 'raise_order', 'inplace', 'O', _raise_order, variants=3)
@@ -576,16 +608,16 @@ op(SO + 'swap', 'inplace', 'O', _swap, variants=2)
 op(SO + 'insert_knot', 'inplace', 'O', _insert_knot, variants=3)
 op(SO + 'refine', 'inplace', 'O', _refine, variants=2)
 op(SO + 'reparam', 'inplace', 'O', _reparam, variants=3)
-op(SO + 'translate', 'inplace', 'O', _translate, variants=2)
-op(SO + 'scale', 'inplace', 'O', lambda sp, a, v: a[0].scale(2.0) if v == 0 else a[0].scale(2.0, 0.5, 4.0), variants=2)
-op(SO + 'rotate', 'inplace', 'O', _rotate, variants=2)
+op(SO + 'translate', 'inplace', 'O', _translate, variants=4)
+op(SO + 'scale', 'inplace', 'O', lambda sp, a, v: a[0].scale(2.0) if v == 0 else (a[0].scale(2.0, 0.5, 4.0) if v == 1 else a[0].scale(SCALARS[v - 1])), variants=4)
+op(SO + 'rotate', 'inplace', 'O', _rotate, variants=4)
 op(SO + 'mirror', 'inplace', 'O', lambda sp, a, v: a[0].mirror((1.0, 2.0, -1.0)))
 op(SO + 'project', 'inplace', 'O', lambda sp, a, v: a[0].project('xy' if v == 0 else 'y'), variants=2)
 op(SO + 'lower_periodic', 'inplace', 'O', _lower_periodic, variants=2)
 op(SO + 'set_dimension', 'inplace', 'O', _set_dimension, variants=3)
 op(SO + 'force_rational', 'inplace', 'O', lambda sp, a, v: a[0].force_rational())
 for _n in ('__iadd__', '__isub__', '__imul__', '__itruediv__', '__ifloordiv__', '__idiv__'):
-    op(SO + _n, 'inplace', 'O', _arith(_n), variants=2)
+    op(SO + _n, 'inplace', 'O', _arith(_n), variants=4)
 op(SO + '__setitem__', 'procedure', 'O', _setitem, variants=2)
 op(SO + 'make_splines_compatible', 'procedure_all', 'OO', _two('make_splines_compatible'))
 op(SO + 'make_splines_identical', 'procedure_all', 'OO', _two('make_splines_identical'))
@@ -639,15 +671,15 @@ op(CF + 'manipulate', 'fresh', 'O', _cf_manipulate, pardims=(1,))
 SF = 'surface_factory.'
 for _n in ('square', 'disc', 'sphere', 'cylinder', 'torus', 'teapot'):
     op(SF + _n, 'no_operand', note='arguments are numbers / vectors')
-op(SF + 'extrude', 'fresh', 'O', _factory1('surface_factory', 'extrude', (0.5, 1.0, 2.0)), pardims=(1,))
-op(SF + 'revolve', 'fresh', 'O', _revolve('surface_factory'), variants=2, pardims=(1,))
+op(SF + 'extrude', 'fresh', 'O', _extrude('surface_factory'), variants=4, pardims=(1,))
+op(SF + 'revolve', 'fresh', 'O', _revolve('surface_factory'), variants=4, pardims=(1,))
 op(SF + 'edge_curves', 'fresh', 'On2', _nary('surface_factory', 'edge_curves'), variants=2, pardims=(1,))
 op(SF + 'edge_curves:4', 'fresh', 'LOOP4', _edge_curves4, variants=2, pardims=(1,),
    note='second call form of edge_curves (four curves); same public name')
 op(SF + 'coons_patch', 'fresh', 'LOOP4', _patch('coons_patch'), pardims=(1,))
 for _n in ('poisson_patch', 'elasticity_patch', 'finitestrain_patch'):
     op(SF + _n, 'fresh', 'LOOP4', _patch(_n), pardims=(1,), note='needs nutils 4 (ImportError otherwise)')
-op(SF + 'thicken', 'fresh', 'O', _thicken, variants=2, pardims=(1,))
+op(SF + 'thicken', 'fresh', 'O', _thicken, variants=4, pardims=(1,))
 op(SF + 'sweep', 'fresh', 'PATH+C', _sweep('surface_factory'), pardims=(1,))
 op(SF + 'loft', 'fresh', 'On', _nary('surface_factory', 'loft'), variants=2, pardims=(1,))
 op(SF + 'interpolate', 'fresh', 'O', _tensor_interp('surface_factory', False), variants=2, pardims=(2,),
@@ -658,8 +690,8 @@ op(SF + 'least_square_fit', 'fresh', 'O', _tensor_interp('surface_factory', True
 VF = 'volume_factory.'
 for _n in ('cube', 'sphere', 'torus', 'cylinder'):
     op(VF + _n, 'no_operand', note='arguments are numbers / vectors')
-op(VF + 'revolve', 'fresh', 'O', _revolve('volume_factory'), variants=2, pardims=(2,))
-op(VF + 'extrude', 'fresh', 'O', _factory1('volume_factory', 'extrude', (0.5, 1.0, 2.0)), pardims=(2,))
+op(VF + 'revolve', 'fresh', 'O', _revolve('volume_factory'), variants=4, pardims=(2,))
+op(VF + 'extrude', 'fresh', 'O', _extrude('volume_factory'), variants=4, pardims=(2,))
 op(VF + 'edge_surfaces', 'fresh', 'On2', _nary('volume_factory', 'edge_surfaces'), variants=2, pardims=(2,))
 op(VF + 'edge_surfaces:6', 'fresh', 'FACES6', _nary('volume_factory', 'edge_surfaces'), variants=2, pardims=(2,),
    note='second call form of edge_surfaces (six surfaces); same public name')
@@ -709,6 +741,9 @@ op('STL.write_surface', 'query', 'O', _stl_write('write_surface'), variants=2, p
 for _n in ('__init__', '__enter__', '__exit__'):
     op('STL.' + _n, 'no_operand', note='stream management')
 
+WIDE_ARG_OPS = {SF + 'extrude', VF + 'extrude', SF + 'revolve', VF + 'revolve', SF + 'thicken', SO + 'translate', SO + 'rotate', SO + 'scale'} | \
+    {SO + n for n in ('__add__', '__radd__', '__sub__', '__mul__', '__rmul__', '__div__', '__truediv__', '__iadd__', '__isub__', '__imul__',
+                      '__itruediv__', '__ifloordiv__', '__idiv__')}
 # Operations that cannot succeed in this environment (still run: operands must stay unchanged).
 ALWAYS_RAISES = {SF + 'poisson_patch', SF + 'elasticity_patch', SF + 'finitestrain_patch'}   # need nutils 4
 # call-form aliases ("name:k") refer to the public name before ':'
